@@ -56,6 +56,16 @@ def gen(tier, rng):
         out.append(('%s/reject-blobversion' % e, '\n'.join(ver) + '\n'))
         iv = list(base); iv[0] += ' nomodel=1'; iv[oi:oi] = ['patch index 0 72 0f', 'patch index 1 73 %s' % (otherK).to_bytes(2, 'little').hex()]
         out.append(('%s/index-mismatch' % e, '\n'.join(iv) + '\n'))
+        # an index file of ANOTHER format version whose content would be misread if it were taken for the current one
+        # (the version byte says 5 or 7, the tail of the leaves is not what the current layout expects): it has to be
+        # rejected -- the answers then come from the blob, as recorded
+        i0 = [f for f in os.listdir(os.path.join(CORPUS, e, 'dir')) if f.endswith('.0.index')]
+        if i0:
+            sz = os.path.getsize(os.path.join(CORPUS, e, 'dir', i0[0]))
+            for vb in ('0b', '0f'):
+                fv = list(base); fv[0] += ' nomodel=1'
+                fv[oi:oi] = ['patch index 0 72 %s' % vb, 'patch index 0 %d %s' % (sz - 24, '00' * 24)]
+                out.append(('%s/index-foreign-%s' % (e, vb), '\n'.join(fv) + '\n'))
         if 'bloom=none' in base[0]:
             # a directory written WITHOUT bloom filters (its index files hold a 0-bit filter placeholder) opened by a storage
             # that has them switched on: every recorded answer has to come back
